@@ -267,6 +267,15 @@ func c10(c *Ctx) {
 	c.Rule("R5", "E3 dominance + E8", "mutators change the span only while recording (addChild included); snapshot copies every field under the lock (= C04.R1, C04.R6)", 10)
 	ruleRecordingGuard(c, ix, "R5")
 	ruleSnapshotComplete(c, ix, "R5")
+
+	// R6 no deadlock inside the package: mutexes are not re-entrant, and nested acquisitions are ordered
+	c.Rule("R6", "E1 must-held + E1b lock order (package-local)", "no method is called on an object while one of that object's mutexes is held if it acquires that mutex again (itself or through further methods of the object); nested acquisitions of different mutexes in sdk/trace have no reverse path", 3)
+	nre := ruleNoReacquire(c, ix, le, "R6", "sdk/trace")
+	nlo := ruleLockOrder(c, ix, le, "R6", "sdk/trace")
+	if nre == 0 {
+		c.Violation("R6", "sdk/trace|no re-acquisition|calls examined", at(ix.M, ix.Pkg.Syntax[0].Pos()), "no method call under a mutex of its receiver found: the analysis no longer sees the calls it was built on")
+	}
+	_ = nlo
 }
 
 // isMutexOfType: does lock key k (a path in f's scope, possibly inherited) name field `mu` of a value of named type t?
